@@ -10,6 +10,7 @@ import (
 	"github.com/golang/geo/verifshim/vsched"
 
 	"verif/mc/core"
+	"verif/mc/lattice"
 )
 
 // C13 — answers depend on current geometry and options only (engine E2:
@@ -574,6 +575,99 @@ func c13QueryMachine(furthest bool) *machine {
 	return m
 }
 
+// c13IndexTargetMachine: one closest / furthest EdgeQuery configured with MaxError > 0 and
+// MaxResults > 1 on an index large enough for the optimized search, asked about ShapeIndex targets
+// (the only targets that take advantage of MaxError, which makes the query keep a set of already
+// tested edges) as well as point targets, in every order.
+func c13IndexTargetMachine(furthest bool) *machine {
+	mkIndex := func() *s2.ShapeIndex {
+		ix := s2.NewShapeIndex()
+		ix.Add(s2.PolygonFromLoops([]*s2.Loop{s2.RegularLoop(lattice.LL(10, 10), lattice.Deg(8), 96)}))
+		var ll []s2.LatLng
+		for i := 0; i < 20; i++ {
+			ll = append(ll, s2.LatLngFromDegrees(-2+1.4*float64(i), 1+1.1*float64(i)))
+		}
+		ix.Add(s2.PolylineFromLatLngs(ll))
+		return ix
+	}
+	mkTargetIndex := func(k int) *s2.ShapeIndex {
+		t := s2.NewShapeIndex()
+		if k == 0 {
+			pl := s2.Polyline{lattice.LL(11, 32), lattice.LL(14, 30), lattice.LL(9, 27)}
+			t.Add(&pl)
+		} else {
+			pv := s2.PointVector{lattice.LL(-5, -9), lattice.LL(30, 40)}
+			t.Add(&pv)
+		}
+		return t
+	}
+	pt := lattice.LL(12, 21)
+	lim := s1.ChordAngleFromAngle(lattice.Deg(15))
+	resStr := func(rs []s2.EdgeQueryResult) string {
+		var s []string
+		for _, r := range rs {
+			s = append(s, fmt.Sprintf("%d/%d@%v", r.ShapeID(), r.EdgeID(), float64(r.Distance())))
+		}
+		return strings.Join(s, ",")
+	}
+	type opT struct {
+		name string
+		f    func(q *s2.EdgeQuery) string
+	}
+	var ops []opT
+	if furthest {
+		ops = []opT{
+			{"FindEdges(indexTarget0)", func(q *s2.EdgeQuery) string { return resStr(q.FindEdges(s2.NewMaxDistanceToShapeIndexTarget(mkTargetIndex(0)))) }},
+			{"FindEdges(indexTarget1)", func(q *s2.EdgeQuery) string { return resStr(q.FindEdges(s2.NewMaxDistanceToShapeIndexTarget(mkTargetIndex(1)))) }},
+			{"FindEdges(point)", func(q *s2.EdgeQuery) string { return resStr(q.FindEdges(s2.NewMaxDistanceToPointTarget(pt))) }},
+			{"Distance(indexTarget0)", func(q *s2.EdgeQuery) string { return fmt.Sprint(float64(q.Distance(s2.NewMaxDistanceToShapeIndexTarget(mkTargetIndex(0))))) }},
+			{"IsDistanceGreater(indexTarget1)", func(q *s2.EdgeQuery) string { return fmt.Sprint(q.IsDistanceGreater(s2.NewMaxDistanceToShapeIndexTarget(mkTargetIndex(1)), lim)) }},
+		}
+	} else {
+		ops = []opT{
+			{"FindEdges(indexTarget0)", func(q *s2.EdgeQuery) string { return resStr(q.FindEdges(s2.NewMinDistanceToShapeIndexTarget(mkTargetIndex(0)))) }},
+			{"FindEdges(indexTarget1)", func(q *s2.EdgeQuery) string { return resStr(q.FindEdges(s2.NewMinDistanceToShapeIndexTarget(mkTargetIndex(1)))) }},
+			{"FindEdges(point)", func(q *s2.EdgeQuery) string { return resStr(q.FindEdges(s2.NewMinDistanceToPointTarget(pt))) }},
+			{"Distance(indexTarget0)", func(q *s2.EdgeQuery) string { return fmt.Sprint(float64(q.Distance(s2.NewMinDistanceToShapeIndexTarget(mkTargetIndex(0))))) }},
+			{"IsDistanceLess(indexTarget1)", func(q *s2.EdgeQuery) string { return fmt.Sprint(q.IsDistanceLess(s2.NewMinDistanceToShapeIndexTarget(mkTargetIndex(1)), lim)) }},
+		}
+	}
+	me := s1.ChordAngleFromAngle(lattice.Deg(0.05))
+	mkQuery := func(ix *s2.ShapeIndex) *s2.EdgeQuery {
+		if furthest {
+			return s2.NewFurthestEdgeQuery(ix, s2.NewFurthestEdgeQueryOptions().MaxResults(3).MaxError(me))
+		}
+		return s2.NewClosestEdgeQuery(ix, s2.NewClosestEdgeQueryOptions().MaxResults(3).MaxError(me))
+	}
+	name := "M4-ClosestEdgeQuery-index-targets-MaxError"
+	if furthest {
+		name = "M4-FurthestEdgeQuery-index-targets-MaxError"
+	}
+	m := &machine{name: name, nOps: len(ops)}
+	m.opStr = func(op int) string { return ops[op].name }
+	exp := map[int]string{}
+	m.run = func(hist []int) (string, string, string) {
+		q := mkQuery(mkIndex())
+		bad, obs := "", ""
+		for i, o := range hist {
+			got := ops[o].f(q)
+			if i == len(hist)-1 {
+				e, ok := exp[o]
+				if !ok {
+					e = ops[o].f(mkQuery(mkIndex()))
+					exp[o] = e
+				}
+				obs = got
+				if got != e {
+					bad = fmt.Sprintf("%s on a reused query (MaxError > 0, MaxResults > 1) returned [%s]; a fresh query with the same user options returns [%s]", ops[o].name, trunc(got, 120), trunc(e, 120))
+				}
+			}
+		}
+		return fmt.Sprintf("%+v", q.VerifOptions()), bad, obs
+	}
+	return m
+}
+
 func c13OtherQueriesMachine() *machine {
 	// One CrossingEdgeQuery and one ContainsPointQuery reused across different arguments.
 	mkIndex := func() (*s2.ShapeIndex, []s2.Shape) {
@@ -679,10 +773,12 @@ func runC13(c *core.Ctx) {
 	searchAll(c, c13QueryMachine(false), core.Pick(c, 3, 4))
 	searchAll(c, c13QueryMachine(true), core.Pick(c, 3, 4))
 	searchAll(c, c13OtherQueriesMachine(), core.Pick(c, 3, 4))
+	searchAll(c, c13IndexTargetMachine(false), core.Pick(c, 3, 5))
+	searchAll(c, c13IndexTargetMachine(true), core.Pick(c, 3, 5))
 }
 
 func c13Machines() []*machine {
-	ms := []*machine{c13IndexMachine(), c13QueryMachine(false), c13QueryMachine(true), c13OtherQueriesMachine()}
+	ms := []*machine{c13IndexMachine(), c13QueryMachine(false), c13QueryMachine(true), c13OtherQueriesMachine(), c13IndexTargetMachine(false), c13IndexTargetMachine(true)}
 	for _, nv := range []int{8, 40, 100} {
 		ms = append(ms, c13LoopMachine(nv))
 	}
